@@ -24,7 +24,7 @@ Norm(t) == CASE t.k = "id"   -> t
              [] OTHER -> t
 
 Ok7(e) == CASE e.ev = "fmtops" -> e.tokok /\ Norm(ParseRef(e.toks)) = e.tree
-            [] e.ev = "fmt"    -> e.after = e.before
+            [] e.ev = "fmt"    -> e.after_ok /\ e.after = e.before       \* (after_ok: the output was read back at all)
             [] OTHER -> FALSE
 Ok8(e) == e.ev = "fmt" => e.idempotent
 
